@@ -91,7 +91,14 @@ def apply(obj, ev: dict):
     if op == "innerprod":
         return obj.innerprod(make(a["other"], {}))
     if op == "normsq":
-        x = float(obj.norm())
+        scaled = None
+        if isinstance(obj, bind.ttb.tensor) and obj.data.dtype.kind in "iu" and obj.data.size:
+            # the norm is homogeneous: ||c X|| = |c| ||X||.  For integer-typed data the scaled entries still fit the
+            # element type while their squares do not (c = 100 for 16-bit, 10000 for wider types)
+            c = 100 if obj.data.dtype.itemsize <= 2 else 10000
+            if np.max(np.abs(obj.data.astype(np.int64))) * c <= np.iinfo(obj.data.dtype).max:
+                scaled = float(bind.ttb.tensor(obj.data * obj.data.dtype.type(c)).norm()) / c
+        x = float(obj.norm()) if scaled is None else scaled
         n2 = x * x
         r = round(n2)
         if abs(n2 - r) > 1e-6 * max(1.0, abs(n2)):
